@@ -328,7 +328,7 @@ class Interp:
         return fr.res
 
     def guard(self, fr: Frame, g):
-        return And(g, fr.alive, *[Not(l["broken"]) for l in fr.loops])
+        return And(g, fr.alive, *([Not(l["broken"]) for l in fr.loops] + [Not(l.get("continued", False)) for l in fr.loops]))
 
     def block(self, stmts, fr: Frame, g):
         pushed = False
@@ -399,6 +399,11 @@ class Interp:
                 raise Unsupported("break outside loop")
             fr.loops[-1]["broken"] = Or(fr.loops[-1]["broken"], eff)
             return
+        if isinstance(st, ast.Continue):
+            if not fr.loops:
+                raise Unsupported("continue outside loop")
+            fr.loops[-1]["continued"] = Or(fr.loops[-1].get("continued", False), eff)
+            return
         if isinstance(st, ast.While):
             if st.orelse:
                 raise Unsupported("while-else")
@@ -408,8 +413,10 @@ class Interp:
             loop = {"broken": False}
             fr.loops.append(loop)
             for _ in range(bound):
+                loop["continued"] = False
                 c = self.truth(self.expr(st.test, fr, g))
                 self.block(st.body, fr, And(g, c))
+            loop["continued"] = False
             c = self.truth(self.expr(st.test, fr, g))
             # unwinding assertion: the loop condition is false after `bound` iterations
             self.obligations.append(("unwind " + key, Not(And(self.guard(fr, g), c))))
@@ -432,7 +439,9 @@ class Interp:
                 before = {nm: fr.env.get(nm) for nm in names}
                 for nm, v in zip(names, vals):
                     fr.env[nm] = v  # exact value while the body runs under its own guard
+                loop["continued"] = False
                 self.block(st.body, fr, gi)
+                loop["continued"] = False
                 for nm in names:
                     fr.env[nm] = merge(eff_i, fr.env[nm], before[nm])
             broken = loop["broken"]
@@ -544,9 +553,13 @@ class Interp:
                 else:
                     raise Unsupported("`in` on " + type(r).__name__)
                 return Not(c) if isinstance(op, ast.NotIn) else c
-            if isinstance(op, ast.Eq):
+            if isinstance(op, (ast.Eq, ast.Is)):
+                if l is None or r is None:
+                    return l is r
                 return Eq(l, r)
-            if isinstance(op, ast.NotEq):
+            if isinstance(op, (ast.NotEq, ast.IsNot)):
+                if l is None or r is None:
+                    return l is not r
                 return Not(Eq(l, r))
             raise Unsupported("comparison " + type(op).__name__)
         if isinstance(e, ast.BinOp) and isinstance(e.op, (ast.Add, ast.Sub)):
@@ -675,7 +688,17 @@ class Interp:
             sub.__dict__.update(self.__dict__)
             res = sub.call(f[1], args)
             self.fname = saved_name
-            return res
+            self.local_info = self._analyse_locals(self.funcs[saved_name])
+            is_generator = any(isinstance(n, (ast.Yield, ast.YieldFrom)) for n in ast.walk(self.funcs[f[1]]))
+            if is_generator:
+                return res
+            # ordinary function: exceptions propagate to the caller, the value is the merged return value
+            fr.res.raised = Or(fr.res.raised, And(eff, res.raised))
+            fr.alive = And(fr.alive, Not(And(eff, res.raised)))
+            val = None
+            for rg, rv in res.returned:
+                val = rv if val is None else merge(rg, rv, val)
+            return val
         raise Unsupported("call")
 
 
